@@ -19,7 +19,8 @@ import (
 //	K<M>(e, id, letter, args...)  the body of a monadic callback: logs the call, then answers by letter.
 //	KL<M>                 number of callback letters.
 //
-// Position i fails with E[i] (Try, StateT), Left(L(i)) (Either), None (Option).
+// Position i fails with Env.Err(i) (Try, StateT: the private sentinel E[i] or, per the execution's
+// error family, one of the library's own errors), Left(L(i)) (Either), None (Option).
 
 func Itoa(i int) string { return strconv.Itoa(i) }
 
@@ -61,8 +62,8 @@ func KOption(e *Env, id string, letter int, args ...string) fp.Option[string] {
 
 func OpTry[T any](e *Env, i int, vs ...T) func() fp.Try[T] {
 	var t fp.Try[T]
-	if e.Fail(i, ErrName(E[i])) {
-		t = fp.Failure[T](E[i])
+	if e.Fail(i, ErrName(e.Err(i))) {
+		t = FailedTry[T](e, i)
 	} else {
 		t = fp.Success(vs[0])
 	}
@@ -77,11 +78,11 @@ func KTry(e *Env, id string, letter int, args ...string) fp.Try[string] {
 	case 0:
 		return fp.Success(enc(id, args))
 	case 1:
-		return fp.Failure[string](E[0])
+		return FailedTry[string](e, 0)
 	case 2:
 		return fp.Success(args[0])
 	}
-	return fp.Failure[string](EK2)
+	return fp.Failure[string](e.Err2())
 }
 
 // ---- Either[string,_] ---------------------------------------------------------------------
@@ -115,11 +116,11 @@ func KEither(e *Env, id string, letter int, args ...string) fp.Either[string, st
 // 3*s+i whether it fails or not, and a string payload records the state it saw, so the order in
 // which operands are run is visible in the result as well as in the log.
 func OpStatet[T any](e *Env, i int, vs ...T) func() fp.StateT[int, T] {
-	fail := e.Fail(i, ErrName(E[i]))
+	fail := e.Fail(i, ErrName(e.Err(i)))
 	st := fp.StateT[int, T](func(s int) (fp.Try[T], int) {
 		e.Call("op"+Itoa(i), s)
 		if fail {
-			return fp.Failure[T](E[i]), 3*s + i
+			return FailedTry[T](e, i), 3*s + i
 		}
 		v := vs[0]
 		if sv, ok := any(v).(string); ok {
@@ -138,13 +139,13 @@ func KStatet(e *Env, id string, letter int, args ...string) fp.StateT[int, strin
 	case 0:
 		return func(s int) (fp.Try[string], int) { return fp.Success(enc(id, args)), 5*s + 1 }
 	case 1:
-		return func(s int) (fp.Try[string], int) { return fp.Failure[string](E[0]), 5*s + 2 }
+		return func(s int) (fp.Try[string], int) { return FailedTry[string](e, 0), 5*s + 2 }
 	case 2:
 		return func(s int) (fp.Try[string], int) { return fp.Success(args[0] + "@" + Itoa(s)), s }
 	}
 	return func(s int) (fp.Try[string], int) {
 		if s%2 == 0 {
-			return fp.Failure[string](EK2), s + 1
+			return fp.Failure[string](e.Err2()), s + 1
 		}
 		return fp.Success(enc(id, args)), s + 1
 	}
@@ -387,10 +388,10 @@ func Elems(e *Env, max, base int, token func(i int) string) (xs []string, failAt
 	return
 }
 
-func TokTry(i int) string    { return ErrName(E[i]) }
+func TokTry(i int) string    { return ErrName(cur.Err(i)) }
 func TokOption(i int) string { return "None" }
 func TokEither(i int) string { return "L(" + L(i) + ")" }
-func TokStatet(i int) string { return ErrName(E[i]) }
+func TokStatet(i int) string { return ErrName(cur.Err(i)) }
 
 // Pred is a logged predicate chosen from {always, never, is x1}.
 func Pred(e *Env, id string) func(string) bool {
@@ -416,7 +417,7 @@ func FailOption[T any](e *Env, id string, i int, args ...string) fp.Option[T] {
 
 func FailTry[T any](e *Env, id string, i int, args ...string) fp.Try[T] {
 	e.Call(id, anys(args)...)
-	return fp.Failure[T](E[i])
+	return FailedTry[T](e, i)
 }
 
 func FailEither[T any](e *Env, id string, i int, args ...string) fp.Either[string, T] {
@@ -426,7 +427,7 @@ func FailEither[T any](e *Env, id string, i int, args ...string) fp.Either[strin
 
 func FailStatet[T any](e *Env, id string, i int, args ...string) fp.StateT[int, T] {
 	e.Call(id, anys(args)...)
-	return func(s int) (fp.Try[T], int) { return fp.Failure[T](E[i]), 3*s + i }
+	return func(s int) (fp.Try[T], int) { return FailedTry[T](e, i), 3*s + i }
 }
 
 // ---- try transformers ------------------------------------------------------------------------
@@ -434,12 +435,12 @@ func FailStatet[T any](e *Env, id string, i int, args ...string) fp.StateT[int, 
 // SeqTOperand is a Try[Seq[string]] at position 1: Failure(E[1]) or Success of a fresh copy of
 // the first n of x2, x1, x3 (n in 0..3; out of order so that Sort/Min/Max have work to do).
 func SeqTOperand(e *Env) func() fp.Try[fp.Seq[string]] {
-	fail := e.Fail(1, ErrName(E[1]))
+	fail := e.Fail(1, ErrName(e.Err(1)))
 	n := e.Size("elems", 3)
 	e.seqT = []string{"x2", "x1", "x3"}[:n]
 	return func() fp.Try[fp.Seq[string]] {
 		if fail {
-			return fp.Failure[fp.Seq[string]](E[1])
+			return FailedTry[fp.Seq[string]](e, 1)
 		}
 		return fp.Success(append(fp.Seq[string]{}, e.seqT...))
 	}
@@ -450,7 +451,7 @@ func SeqTOperand(e *Env) func() fp.Try[fp.Seq[string]] {
 func SeqTFunc(e *Env, base int) func(string) fp.Try[string] {
 	failAt := map[string]int{}
 	for k, x := range e.seqT {
-		if e.Fail(base+k+1, ErrName(E[base+k+1])) {
+		if e.Fail(base+k+1, ErrName(e.Err(base+k+1))) {
 			failAt[x] = base + k + 1
 		}
 	}
@@ -464,11 +465,11 @@ func SeqTFunc(e *Env, base int) func(string) fp.Try[string] {
 
 // OptionTOperand is a Try[Option[string]] at position 1: Failure(E[1]), Success(None), Success(Some(x1)).
 func OptionTOperand(e *Env) func() fp.Try[fp.Option[string]] {
-	fail := e.Fail(1, ErrName(E[1]))
+	fail := e.Fail(1, ErrName(e.Err(1)))
 	some := e.X.Choose(2, "some") == 1
 	return func() fp.Try[fp.Option[string]] {
 		if fail {
-			return fp.Failure[fp.Option[string]](E[1])
+			return FailedTry[fp.Option[string]](e, 1)
 		}
 		if some {
 			return fp.Success(fp.Some("x1"))
